@@ -303,7 +303,7 @@ func (x *gen) drawOp() {
 	disc := uint32(0xFFFFFFFF) - uint32(0xFFFFFFFF)%un
 	rejects := 0
 	if n&(n-1) != 0 && x.g.chance(35) {
-		rejects = 1 + x.g.intn(8)
+		rejects = 1 + x.g.intn(14)
 	}
 	for i := 0; i < rejects; i++ {
 		switch x.g.intn(3) {
@@ -824,6 +824,8 @@ func (x *gen) wlCellOps(maxCell int) {
 	}
 	sep := []string{"char:_", "char:45", "const:46.46", "preset:none"}[x.g.intn(4)]
 	wa := fmt.Sprintf("words=%s titles=%s", encList(words), encList(wordTitles(words)))
+	// the whole cell as one operation: outcome histogram on both sides
+	x.emit("wlcell %s L=%d sep=%s cap=%s", wa, L, sep, encCps(scheme))
 	for c := 0; c < cell; c++ {
 		v := c
 		t := make([]uint32, capDraws+L)
